@@ -53,7 +53,7 @@ def tiling_boundaries(tier):
     return out
 
 
-def build_input(path, method, tier, extra=False):
+def build_input(path, method, tier, extra=False, dense=False):
     mx = 'scCHIC384C8U3' if method == 'chic' else 'NLAIII384C8U3'
     kw = dict(method=method, mx=mx)
     b = Builder(CONTIGS + (EXTRA_CONTIGS if extra else []))
@@ -65,12 +65,19 @@ def build_input(path, method, tier, extra=False):
         for B in sorted(bnds[contig]):
             for d in (-1, 0, 1):
                 sites.add(B + d)
+        # the first and the last bases of the contig (remainder bins of a tiling are only a few bases wide)
+        sites.update(range(0, 4))
+        sites.update(range(length - 8, length))
         for site in sorted(sites):
             for reverse in (False, True):
-                # the complete fragment must lie inside the contig
-                lo = site if not reverse else site + 4 - MAXFRAG - 2
-                hi = site + MAXFRAG + 2 if not reverse else site + 6
-                if lo < 0 or hi > length:
+                # the complete fragment must lie inside the contig, and the site itself must be a coordinate of the contig
+                if method == 'chic':
+                    lo = site + 2 if not reverse else site - 1 - MAXFRAG
+                    hi = site + 2 + MAXFRAG if not reverse else site - 1
+                else:
+                    lo = site if not reverse else site + 4 - MAXFRAG
+                    hi = site + MAXFRAG if not reverse else site + 4
+                if lo < 0 or hi > length or not (0 <= site < length):
                     continue
                 k += 1
                 umi = umis[k % len(umis)]
@@ -82,6 +89,11 @@ def build_input(path, method, tier, extra=False):
                 if k % 7 == 0:
                     b.pair(contig, site, cell=1, umi='GGG', reverse=reverse, motif='CTTG', frag=50, **kw)   # reject (nla)
         b.pair(contig, min(length - 100, 150), cell=2, umi='TGA', r2_unmapped=True, **kw)
+    if dense:
+        # a molecule in every 20-base bin, so that a one-bin-per-job tiling produces more than a hundred result files
+        for contig, length in CONTIGS[:2]:
+            for site in range(10, length - MAXFRAG - 10, 20):
+                b.pair(contig, site, cell=3, umi='TCA', frag=45, **kw)
     if extra:
         for ci, (contig, length) in enumerate(EXTRA_CONTIGS):
             b.pair(contig, 1000 + ci, cell=1, umi='AAA', **kw)
@@ -136,11 +148,11 @@ def diff_signature(want, got):
 class Session:
     """one input BAM + its serial reference output, reused for all tilings of a shard"""
 
-    def __init__(self, method, tier, extra=False):
+    def __init__(self, method, tier, extra=False, dense=False):
         self.method = method
         self.d = tempfile.mkdtemp(prefix='c08_', dir='/dev/shm')
         self.inp = os.path.join(self.d, 'in.bam')
-        build_input(self.inp, method, tier, extra=extra)
+        build_input(self.inp, method, tier, extra=extra, dense=dense)
         self.nrec = len(records(self.inp))
         out = os.path.join(self.d, 'serial.bam')
         exc, _ = tagger.run_tagger([self.inp, '-method', method, '-o', out, '-temp_folder', self.d])
@@ -199,6 +211,8 @@ def configs(tier):
                     if not pool and jn != 'b':
                         continue       # without a pool there is no schedule; one job size suffices
                     out.append({'b': b, 'f': f, 'j': j, 'pool': pool})
+    # a fine tiling with more than a hundred jobs (one bin per job)
+    out.append({'b': 20, 'f': 60, 'j': 20, 'pool': True, 'few_orders': True})
     return out
 
 
@@ -213,7 +227,7 @@ def shards(tier):
 def run_shard(shard, tier, acc):
     method, ci = shard
     cfg = configs(tier)[ci]
-    ses = Session(method, tier, extra=(cfg is None))
+    ses = Session(method, tier, extra=(cfg is None), dense=bool(cfg and cfg.get('few_orders')))
     try:
         if ses.serial is None:
             case = {'method': method, 'cfg': None, 'order': None, 'tier': tier}
@@ -226,7 +240,10 @@ def run_shard(shard, tier, acc):
         _report(acc, case, viols, njobs, ses.nrec)
         if njobs and njobs > 1 and (cfg is None or cfg['pool']):
             full, swaps = (4, 2) if tier == 'quick' else (5, 3)
-            for o in sched_orders(njobs, full_upto=full, swaps=swaps):
+            order_list = sched_orders(njobs, full_upto=full, swaps=swaps)
+            if cfg is not None and cfg.get('few_orders'):
+                order_list = [tuple(range(njobs)), tuple(reversed(range(njobs)))]
+            for o in order_list:
                 if list(o) == list(range(njobs)):
                     continue
                 case = {'method': method, 'cfg': cfg, 'order': list(o), 'tier': tier}
@@ -246,7 +263,8 @@ def _report(acc, case, viols, njobs, nrec):
 
 
 def replay(case):
-    ses = Session(case['method'], case.get('tier', 'quick'), extra=(case['cfg'] is None))
+    ses = Session(case['method'], case.get('tier', 'quick'), extra=(case['cfg'] is None),
+                  dense=bool(case['cfg'] and case['cfg'].get('few_orders')))
     try:
         if ses.serial is None:
             return [(f"{case['method']}:serial:exception:{type(ses.serial_error).__name__}", repr(ses.serial_error))]
